@@ -114,6 +114,8 @@ def do_yield(eng, value, st, fr, k, node):
     g["#out"] = z3.Store(out, nout, v)
     g["#nout"] = nout + 1
     s2 = St(st.env, st.heap, st.pc, g)
+    if getattr(c, "after_yield", None) is not None:
+        s2 = c.after_yield(eng, s2, value)        # ghost bookkeeping of what has been handed out so far
     if c.yield_may_throw:
         # the consumer may throw an exception into the generator at this yield
         fr.on_raise(Exc(c.yield_may_throw if isinstance(c.yield_may_throw, str) else "Any",
